@@ -43,6 +43,19 @@ KNOWN_CLASSES = {
 }
 
 PROPS = {
+    "C06": {
+        "lean_modules": ["TableauVerif.Props.C06"],
+        "oracles": ["c06.rt"],
+        "streams": [
+            ("e2e.C06.formats", 3000, 100000),
+            ("corr.xproto.squeeze", 70000, 600000),
+        ],
+        "assumptions": [
+            "codecs are trusted parameters validated by the stream, not proved: protojson / prototext / wire marshal+unmarshal of protobuf-go, sonic's JSON AST, txtpbfmt, json.Compact/Indent",
+            "modelled and proved: tableau's own transformation on the text path (SqueezeText); the JSON timestamp rewrite (emitTimezones) is exercised by the stream over four locations and sub-second timestamps but not modelled",
+            "timestamps are generated inside 1950-2033: year 0001/9999 edges overflow RFC 3339 when shifted into a zone and local-mean-time eras have second-resolution offsets RFC 3339 cannot print — outside the statement",
+        ],
+    },
     "C16": {
         "lean_modules": ["TableauVerif.Props.C16"],
         "oracles": ["c16.hist"],
